@@ -80,20 +80,10 @@ def tyMatch (T : Tables) : STy → Ty → Bool
   | _, _ => false
 
 /-- the parameters that become struct fields -/
-def fieldParams (d : Def) : List Param :=
-  d.params.filter fun p => match p.ty with
-    | .flagsWord => false
-    | .typeParam _ => false
-    | _ => true
+def fieldParams (d : Def) : List Param := valueParams d.params
 
 /-- index (among the field parameters) in front of which the flags word is written -/
-def expectedFlagIndex : List Param → Nat → Option Nat
-  | [], _ => none
-  | p :: ps, n =>
-    match p.ty with
-    | .flagsWord => some n
-    | .typeParam _ => expectedFlagIndex ps n
-    | _ => expectedFlagIndex ps (n + 1)
+def expectedFlagIndex (ps : List Param) (n : Nat) : Option Nat := flagsPos ps n
 
 def fieldMatch (T : Tables) (p : Param) (f : FieldDesc) : Bool :=
   tyMatch T p.ty f.ty &&
